@@ -271,8 +271,8 @@ def run_property(prop, tier, seed, shrink=True):
         "wall_s": round(time.time() - t0, 2),
         "violations": violations,
     }
-    os.makedirs(os.path.join(env.VERIF, "evidence"), exist_ok=True)
-    with open(os.path.join(env.VERIF, "evidence", "%s.json" % prop), "w") as fp:
+    os.makedirs(os.path.join(env.OUT, "evidence"), exist_ok=True)
+    with open(os.path.join(env.OUT, "evidence", "%s.json" % prop), "w") as fp:
         json.dump(ev, fp, indent=1, sort_keys=True, default=str)
         fp.write("\n")
 
